@@ -16,12 +16,15 @@ pub fn prop() -> Prop {
     Prop {
         id: "C20",
         level: "exploration",
-        rule: "proptest tapes decoding to a history of 0..=14 operations {draw a single Pixel, draw_iter with 1..=5 pixels, set_pixel(Some/None) in range} with points in [-3,67]^2 plus i32 extremes and deliberately repeated points, under the four combinations of allow_overdraw / allow_out_of_bounds_drawing, for BinaryColor, Gray2, Gray4, Gray8 (0x11 multiples), Rgb565 and Rgb888 (the 8 named colours). Oracle (model-based): a map kept by the harness; a drawing operation must panic iff some pixel is (outside and out-of-bounds drawing is not allowed) or (inside, already set, and overdraw is not allowed) -- judged with catch_unwind on a clone, and the message names the right reason; after every operation that must not panic get_pixel equals the model on all 4096 cells and affected_area is the tight box of the model; at the end from_pattern(parse(Debug output)) == display, a display rebuilt from the model compares equal and has an empty diff, and after changing one cell the two compare unequal and diff marks exactly that cell. Non-trivial: the history contains a repeated in-range point and an out-of-range point.",
+        rule: "proptest tapes decoding to a history of 0..=14 operations {draw a single Pixel, draw_iter with 1..=5 pixels, set_pixel(Some/None) in range} with points in [-3,67]^2 plus i32 extremes and deliberately repeated points, under the four combinations of allow_overdraw / allow_out_of_bounds_drawing, for BinaryColor, Gray2, Gray4, Gray8 (0x11 multiples), Rgb565 and Rgb888 (the 8 named colours). Oracle (model-based): a map kept by the harness; a drawing operation must panic iff some pixel is (outside and out-of-bounds drawing is not allowed) or (inside, already set, and overdraw is not allowed) -- judged with catch_unwind on a clone, and the message names the right reason; after every operation that must not panic get_pixel equals the model on all 4096 cells and affected_area is the tight box of the model; at the end from_pattern(parse(Debug output)) == display, a display rebuilt from the model compares equal and has an empty diff, and after changing one cell the two compare unequal and diff marks exactly that cell. A second sub-check generates patterns over each colour type's complete character set (BinaryColor . #, Gray2 0-3, Gray4 / Gray8 0-9A-F, RGB types K R G B Y M C W, blanks), up to 64x64: from_pattern must set exactly the cells the pattern names to the colour the documented character table gives (own table in the harness), Debug must reproduce the pattern rows (padded to 64 columns, trailing empty rows skipped), and from_pattern(Debug) must compare equal. Non-trivial: the history contains a repeated in-range point and an out-of-range point; a pattern with >= 2 rows, >= 3 different characters and a blank.",
         assumptions: vec![
             "get_pixel is only called with points inside the 64x64 area (it indexes unchecked by design)",
             "patterns use each colour type's canonical characters",
         ],
-        subs: vec![Sub::tape("histories", 120, 40_000, 600_000, histories)],
+        subs: vec![
+            Sub::tape("histories", 120, 40_000, 600_000, histories),
+            Sub::tape("patterns", 140, 20_000, 300_000, patterns),
+        ],
     }
 }
 
@@ -240,5 +243,105 @@ where
         }
     }
     cx.nontrivial(saw_repeat && saw_oob);
+    Ok(())
+}
+
+
+// ---- patterns ---------------------------------------------------------------------------------
+
+fn patterns(d: &mut Dec, cx: &mut Cx) -> Res {
+    use embedded_graphics::pixelcolor::{Bgr565, Rgb332};
+    let rgb = |c: char| -> (u8, u8, u8) {
+        match c {
+            'K' => (0, 0, 0),
+            'R' => (1, 0, 0),
+            'G' => (0, 1, 0),
+            'B' => (0, 0, 1),
+            'Y' => (1, 1, 0),
+            'M' => (1, 0, 1),
+            'C' => (0, 1, 1),
+            _ => (1, 1, 1),
+        }
+    };
+    const HEX: &str = "0123456789ABCDEF";
+    const RGBC: &str = "KRGBYMCW";
+    match d.u(0, 6) {
+        0 => pattern_case::<BinaryColor>(d, cx, ".#", "BinaryColor", &|c| if c == '#' { BinaryColor::On } else { BinaryColor::Off }),
+        1 => pattern_case::<Gray2>(d, cx, "0123", "Gray2", &|c| Gray2::new(c.to_digit(4).unwrap() as u8)),
+        2 => pattern_case::<Gray4>(d, cx, HEX, "Gray4", &|c| Gray4::new(c.to_digit(16).unwrap() as u8)),
+        3 => pattern_case::<Gray8>(d, cx, HEX, "Gray8", &|c| Gray8::new(c.to_digit(16).unwrap() as u8 * 0x11)),
+        4 => pattern_case::<Rgb565>(d, cx, RGBC, "Rgb565", &|c| {
+            let (r, g, b) = rgb(c);
+            Rgb565::new(r * 31, g * 63, b * 31)
+        }),
+        5 => pattern_case::<Rgb332>(d, cx, RGBC, "Rgb332", &|c| {
+            let (r, g, b) = rgb(c);
+            Rgb332::new(r * 7, g * 7, b * 3)
+        }),
+        _ => pattern_case::<Bgr565>(d, cx, RGBC, "Bgr565", &|c| {
+            let (r, g, b) = rgb(c);
+            Bgr565::new(r * 31, g * 63, b * 31)
+        }),
+    }
+}
+
+fn pattern_case<C>(d: &mut Dec, cx: &mut Cx, charset: &str, name: &str, to_color: &dyn Fn(char) -> C) -> Res
+where
+    C: PixelColor + ColorMapping + core::fmt::Debug,
+{
+    let chars: Vec<char> = charset.chars().collect();
+    let (w, h) = match d.u(0, 3) {
+        0 => (d.u(0, 5) as usize, d.u(0, 5) as usize),
+        1 => (64, d.u(1, 64) as usize),
+        2 => (d.u(1, 64) as usize, 64),
+        _ => (d.u(0, 64) as usize, d.u(0, 64) as usize),
+    };
+    // a few generated rows, repeated cyclically with a rotation, keep the tape short
+    let nbase = d.u(1, 3) as usize;
+    let mut base: Vec<Vec<char>> = vec![];
+    for _ in 0..nbase {
+        let mut row = vec![];
+        let mut x = d.raw() | 1;
+        let blank_rate = d.u(0, 3);
+        for _ in 0..w {
+            x ^= x << 13;
+            x ^= x >> 17;
+            x ^= x << 5;
+            row.push(if x % 4 < blank_rate { ' ' } else { chars[(x >> 8) as usize % chars.len()] });
+        }
+        base.push(row);
+    }
+    let rows: Vec<String> = (0..h).map(|y| { let r = &base[y % nbase]; (0..w).map(|x| r[(x + y / nbase) % w.max(1)]).collect() }).collect();
+    let refs: Vec<&str> = rows.iter().map(|s| s.as_str()).collect();
+    cx.describe(|| format!("MockDisplay<{}>::from_pattern({}x{}): {:?}", name, w, h, &rows[..rows.len().min(6)]));
+    cx.class(if w == 64 || h == 64 { "full_extent" } else { "partial" });
+    let display = MockDisplay::<C>::from_pattern(&refs);
+    for y in 0..64usize {
+        for x in 0..64usize {
+            let exp = if y < h && x < w {
+                let c = rows[y].as_bytes()[x] as char;
+                if c == ' ' { None } else { Some(to_color(c)) }
+            } else {
+                None
+            };
+            let got = display.get_pixel(Point::new(x as i32, y as i32));
+            ensure!(got == exp, "from_pattern:cell", "cell ({}, {}) is {:?}, the pattern says {:?}", x, y, got, exp);
+        }
+    }
+    // Debug reproduces the pattern
+    let text = format!("{:?}", display);
+    let lines: Vec<&str> = text.lines().collect();
+    ensure!(lines.first() == Some(&"MockDisplay[") && lines.last() == Some(&"]"), "debug:format", "unexpected Debug output frame");
+    let out: Vec<&str> = lines[1..lines.len() - 1].iter().copied().filter(|l| !(l.starts_with('(') && l.ends_with("empty rows skipped)"))).collect();
+    let last_nonblank = rows.iter().rposition(|r| r.chars().any(|c| c != ' ')).map(|i| i + 1).unwrap_or(0);
+    ensure!(out.len() == last_nonblank, "debug:row_count", "Debug prints {} rows, the pattern has {} rows up to the last non-blank one", out.len(), last_nonblank);
+    for (y, row) in out.iter().enumerate() {
+        let exp: String = rows[y].chars().chain(std::iter::repeat(' ')).take(64).collect();
+        ensure!(*row == exp, "debug:row", "Debug row {} is {:?}, expected {:?}", y, row, exp);
+    }
+    let again = MockDisplay::<C>::from_pattern(&out);
+    ensure!(again == display, "from_pattern:roundtrip", "from_pattern(Debug output) differs from the display");
+    let distinct: std::collections::BTreeSet<char> = rows.iter().flat_map(|r| r.chars()).collect();
+    cx.nontrivial(h >= 2 && distinct.len() >= 3 && distinct.contains(&' '));
     Ok(())
 }
